@@ -1,32 +1,20 @@
 (* C05, positive half under exact arithmetic: on rows that parse (valid
-   quantities, registered flag a function of the affiliate id) the ONLY panic
-   the bookkeeping core can raise is the effective-cent one
-   (c_maybe_round_to_effective_cent rounding a tiny denied loss to 0.00 and
-   unwrapping it as a NegDecimal).  Every other panic of the real code is
-   therefore an effect of rust_decimal rounding / overflow (the other two
+   quantities, registered flag a function of the affiliate id) the
+   bookkeeping core raises NO panic.  (Before the fix "treat a superficial
+   loss that rounds to zero effective cents as no superficial loss" there was
+   one: c_maybe_round_to_effective_cent rounding a tiny denied loss to 0.00
+   and unwrapping it as a NegDecimal.)  Every panic of the real code is
+   therefore an effect of rust_decimal rounding / overflow (the two remaining
    known classes). *)
 From Coq Require Import List NArith ZArith QArith Qcanon Bool Lia.
 From ACB Require Import Base.Outcome Base.QcExtra Base.Fit Base.Arith Model.Tx Model.Ledger Model.Sfl
      Model.DeltaList Spec.AvgCost Proofs.Tactics Proofs.C01Refine Proofs.C04Inv Proofs.C04Sum Proofs.C02Scan
-     Proofs.C05Sites Proofs.C04Reject Proofs.C03Conserve.
+     Proofs.C05Sites Proofs.C04Reject Proofs.C03Conserve Proofs.EffCent.
 Import ListNotations.
 Local Open Scope Qc_scope.
 
-Definition the_panic : panic := PanicConstraint Site.eff_cent.
-(* [okp m]: m panics at most with the effective-cent panic *)
-Definition okp {T} (m : res T) : Prop := forall p, m = Panic p -> p = the_panic.
 Definition nopanic {T} (m : res T) : Prop := forall p, m <> Panic p.
 
-Lemma nopanic_okp {T} (m : res T) : nopanic m -> okp m.
-Proof. intros H p E. exfalso. apply (H p E). Qed.
-Lemma okp_bind {T U} (m : res T) (f : T -> res U) :
-  okp m -> (forall x, m = Ok x -> okp (f x)) -> okp (bind m f).
-Proof.
-  intros Hm Hf p E. destruct m as [x|r|q]; cbn [bind] in E.
-  - exact (Hf x eq_refl p E).
-  - discriminate E.
-  - inversion E; subst. exact (Hm p eq_refl).
-Qed.
 Lemma nopanic_bind {T U} (m : res T) (f : T -> res U) :
   nopanic m -> (forall x, m = Ok x -> nopanic (f x)) -> nopanic (bind m f).
 Proof.
@@ -332,7 +320,7 @@ Definition good_sfl (m : res (option (sflinfo * list tx))) : Prop :=
   | Ok (Some (_, inj)) => Forall vtx inj
   | Ok None => True
   | Rej _ => True
-  | Panic p => p = the_panic
+  | Panic p => False
   end.
 
 Lemma delta_sfl_good bef t sold spec aft st loss :
@@ -355,19 +343,20 @@ Proof.
       by (apply Qcdiv_pos; [apply min3_pos; assumption | exact Hsold]).
     unfold pos_unwrap at 1. destruct (Qcltb_spec 0 (min3 sold (sc_acq s) (sc_eop s) / sold)) as [_|Hc]; [|contradiction].
     cbn [bind]. rewrite (neg_mul_pos_ok _ _ Hloss Hq). cbn [bind].
-    unfold eff_cent. cbn [a_sub exact bind].
-    match goal with |- context [if Qcltb ?a ?b then Ok ?x else Ok ?y] =>
-      assert (Hec : exists c, (if Qcltb a b then Ok x else Ok y) = @Ok Qc c) by (destruct (Qcltb a b); eexists; reflexivity)
-    end.
-    destruct Hec as [c Hec]. rewrite Hec. cbn [bind]. unfold neg_unwrap at 1.
-    destruct (Qcltb_spec c 0) as [Hc|_]; cbn [bind]; [|reflexivity].
+    assert (Hl : loss * (min3 sold (sc_acq s) (sc_eop s) / sold) <= 0).
+    { apply Qclt_le_weak. rewrite <- (Qcmult_0_l (min3 sold (sc_acq s) (sc_eop s) / sold)).
+      apply Qcmult_lt_compat_r; assumption. }
+    assert (Hec : exists c, eff_cent exact (loss * (min3 sold (sc_acq s) (sc_eop s) / sold)) = Ok c)
+      by (unfold eff_cent; cbn [a_sub exact bind]; destruct (Qcltb _ _); eexists; reflexivity).
+    destruct Hec as [c Hec]. rewrite Hec. cbn [bind].
+    rewrite (eff_cent_site_ok exact _ _ Hl Hec). cbn [bind].
     destruct spec as [[sv force]|].
     + destruct force; cbn [bind a_sub exact];
         [| destruct (Qcltb (Qcfrac 1 1000) _); cbn [bind]; [exact I|]].
       all: destruct (Qcltb_spec sv 0) as [Hsv|_]; cbn [negb]; [|exact I].
       all: rewrite (neg_div_ok _ _ Hsv Hloss); cbn [bind].
       all: rewrite (pos_mul_ok' _ _ (Hq2 sv Hsv) Hsold); cbn [bind good_sfl]; constructor.
-    + unfold neg_unwrap. destruct (Qcltb_spec c 0) as [_|Hn]; [|contradiction]. cbn [bind].
+    + destruct (Qcltb_spec c 0) as [Hc|_]; cbn [negb]; [|exact I].
       destruct (gen_sfla_np t c (sr_portions r) Hc Hps) as (l & El & Hv). rewrite El. cbn [bind good_sfl]. exact Hv.
   - cbn [sfl_ratio bind]. destruct spec as [[sv force]|]; [|exact I].
     destruct force; cbn [bind a_sub exact];
@@ -382,7 +371,7 @@ Definition good_d (m : res (delta * list tx)) : Prop :=
   match m with
   | Ok (_, inj) => Forall vtx inj
   | Rej _ => True
-  | Panic p => p = the_panic
+  | Panic p => False
   end.
 
 Section Rows.
@@ -485,7 +474,7 @@ Section RunsNP.
   Lemma run_injected_panic inj : forall bef st aft ds bef' st' o,
     run_injected exact bef st inj aft = (ds, bef', st', o) ->
     st_inv regof st -> Forall rok inj -> Forall vtx inj -> Forall vtx bef -> Forall vtx aft ->
-    (forall p, o = Some (SPanic p) -> p = the_panic) /\ Forall vtx bef' /\ st_inv regof st'.
+    (forall p, o <> Some (SPanic p)) /\ Forall vtx bef' /\ st_inv regof st'.
   Proof.
     induction inj as [|t inj IH]; intros bef st aft ds bef' st' o H Hinv HR HV Hb Ha; cbn [run_injected] in H.
     - inversion H; subst. split; [intros p E; discriminate E | auto].
@@ -500,12 +489,12 @@ Section RunsNP.
         assert (Hinv1 : st_inv regof st1) by (eapply set_latest_inv; eauto).
         eapply IH; [exact Er | exact Hinv1 | exact HR | exact HV | constructor; assumption | exact Ha].
       + inversion H; subst. split; [intros p E; discriminate E | auto].
-      + inversion H; subst. split; [intros p E; inversion E; subst; reflexivity | auto].
+      + contradiction Hg.
   Qed.
 
   Lemma run_loop_panic aft : forall bef st ds p,
     run_loop exact bef st aft = (ds, Some (SPanic p)) ->
-    st_inv regof st -> Forall rok aft -> Forall rok bef -> Forall vtx aft -> Forall vtx bef -> p = the_panic.
+    st_inv regof st -> Forall rok aft -> Forall rok bef -> Forall vtx aft -> Forall vtx bef -> False.
   Proof.
     induction aft as [|t aft IH]; intros bef st ds p H Hinv HR HRb HV HVb; cbn [run_loop] in H; [discriminate|].
     apply Forall_cons_iff in HR as [Hr HR]. apply Forall_cons_iff in HV as [Hv HV].
@@ -519,7 +508,7 @@ Section RunsNP.
       destruct (run_injected_inv regof _ _ _ _ _ _ _ _ Er Hinv1 Hinj) as (_ & _ & Eb1).
       destruct (run_injected_panic inj _ _ _ _ _ _ _ Er Hinv1 Hinj Hg (Forall_cons _ Hv HVb) HV) as (Hp & Hvb1 & Hinv2).
       destruct o1 as [s1|].
-      + inversion H; subst. apply Hp. reflexivity.
+      + inversion H; subst. apply (Hp p). reflexivity.
       + destruct (run_loop exact b1 st2 aft) as [ds2 o2] eqn:El. inversion H; subst o2.
         eapply IH; [exact El | exact Hinv2 | exact HR | | exact HV | exact Hvb1].
         rewrite Eb1. apply Forall_app. split.
@@ -527,15 +516,15 @@ Section RunsNP.
           rewrite Forall_forall in Hinj. apply Hinj. eapply In_firstn. exact Hx.
         * constructor; assumption.
     - discriminate.
-    - inversion H; subst. reflexivity.
+    - contradiction Hg.
   Qed.
 
   Definition init_ok2 (init : option status) : Prop :=
     forall i, init = Some i -> status_ok i /\ s_acb i <> None /\ s_sh i = s_all i.
 
-  Theorem run_panic_only_eff_cent init txs ds p :
+  Theorem run_exact_never_panics init txs ds p :
     run exact init txs = (ds, Some (SPanic p)) ->
-    init_ok2 init -> Forall rok txs -> Forall vtx txs -> p = the_panic.
+    init_ok2 init -> Forall rok txs -> Forall vtx txs -> False.
   Proof.
     unfold run. destruct txs as [|t txs]; intros H Hi HR HV; [discriminate|].
     destruct (init_state exact init) as [st| r0 |q] eqn:Ei.
